@@ -26,3 +26,25 @@ Theorem C13_rejects_wrong_width : forall (A : Type) (score : list Z -> A) sk n w
   w <> width_of sk -> evaluate score sk n (IntRows w rows) = None.
 Proof. exact @evaluate_rejects_wrong_width. Qed.
 Print Assumptions C13_rejects_wrong_width.
+
+(** ---- added: statements re-derived from the lemma files by tools/append_props.py ---- *)
+Theorem C13_unsigned_differences_accept_a_decreasing_row_refuted : exists w a b min_size : Z, b < a /\ 0 <= b /\ a < 2 ^ w /\ 1 <= min_size <= wrapu w (b - a).
+Proof. exact @unsigned_diff_accepts_decreasing_row_refuted. Qed.
+
+Theorem C13_narrow_dtype_position_product_wraps_refuted : exists w n nb : Z, 0 < nb < n /\ n < 2 ^ (w - 1) /\ wraps w (n * nb) <> n * nb.
+Proof. exact @narrow_dtype_product_wraps_refuted. Qed.
+
+Theorem C13_int64_holds_every_narrower_value : forall w x : Z, 1 <= w <= 63 -> 0 <= x < 2 ^ w -> wraps 64 x = x.
+Proof. exact @int64_holds_every_narrower_value. Qed.
+
+Theorem C13_int64_differences_exact : forall a b : Z, 0 <= a < 2 ^ 62 -> 0 <= b < 2 ^ 62 -> wraps 64 (b - a) = b - a.
+Proof. exact @int64_differences_exact. Qed.
+
+Theorem C13_int64_position_products_exact : forall n a : Z, 0 <= a <= n -> n < 2 ^ 31 -> wraps 64 (n * a) = n * a.
+Proof. exact @int64_position_products_exact. Qed.
+
+Print Assumptions C13_unsigned_differences_accept_a_decreasing_row_refuted.
+Print Assumptions C13_narrow_dtype_position_product_wraps_refuted.
+Print Assumptions C13_int64_holds_every_narrower_value.
+Print Assumptions C13_int64_differences_exact.
+Print Assumptions C13_int64_position_products_exact.
